@@ -287,7 +287,8 @@ class YosysBehavioralRTLIRToVVisitorL1( BehavioralRTLIRToVVisitorL1 ):
   def visit_FreeVar( s, node ):
     if isinstance( node.obj, int ):
       nbits = node.Type.get_dtype().get_length()
-      return f"{nbits}'d{node.obj}"
+      # bool is an int: a Python True/False constant is the number 1/0
+      return f"{nbits}'d{int(node.obj)}"
     elif isinstance( node.obj, Bits ):
       nbits = node.obj.nbits
       value = int( node.obj )
